@@ -28,7 +28,8 @@ reg("C08",
     "Exploration by generated-input search: every n in 1..3*10^5 (quick) / 1..10^7 (thorough) is decoded "
     "through the public line and event constructors and compared with n/1000; log-uniform random n up "
     "to 10^15, the complete (u,l) time-signature grid, random anchors, Hypothesis-generated padded "
-    "lines with digit strings up to 1000 digits and whole sync sections parsed with Chart.from_file. "
+    "lines with digit strings up to 1000 digits and whole sync sections parsed with Chart.from_file "
+    "(ticks also moved across 2^31, 2^32, 2^33, 2^63, 2^64 and 10^20; restated tempos and signatures). "
     "Exhaustive for the enumerated tempo range; sampling beyond it, so absence of a failing value "
     "outside the range is not established.",
     "Trusts CPython int/int true division (correctly rounded) as the 'nearest float' oracle "
@@ -73,7 +74,10 @@ reg("C02",
     "Exploration by generated-input search: a complete table (all 32 lane combinations x position x gap "
     "x flags) every run plus Hypothesis sections (up to 30/200 ticks, gaps incl. 1, shuffled lane order, "
     "flags between lane lines, S/E lines interleaved anywhere) parsed with Chart.from_file and compared "
-    "with an independent grouping model (sorted distinct ticks, 5-bit lane tuple).",
+    "with an independent grouping model (sorted distinct ticks, 5-bit lane tuple). The section under test "
+    "stands in a chart with neighbours that must not matter: other instrument sections (cut-down copies, a "
+    "fuller sibling difficulty), well-known global events at its own ticks, inert lines on its own ticks, "
+    "[Song] extras, time signatures, anchors, blank padding, tick offsets across machine widths.",
     "Generators stay inside the documented well-formed domain (open alone/first, sorted N lines, no forced first note).",
     "DESIGN.md section 4, C02")
 
@@ -188,8 +192,10 @@ reg("C16",
     "Exploration by generated-input search: charts with present, note-less and absent tracks; ~12 calls "
     "per chart whose bounds are drawn relative to the notes (exactly on a note start / sustain end, "
     "+-1 tick / +-1 us, equal, reversed, outside); result compared with count-in-closed-interval over "
-    "length (isclose 1e-12), error outcomes with ValueError, tick-bounded call with its time-bounded twin.",
-    "Note timestamps used by the reference are the parsed chart's (their correctness is C01).",
+    "length (isclose 1e-12), error outcomes with ValueError, tick-bounded call with its time-bounded twin; "
+    "the time a tick bound stands for must agree with the exact rational tempo model of the written map "
+    "(short and LONG maps, bounds on / around the last tempo changes and on anchors).",
+    "Note timestamps used by the reference are the parsed chart's (their correctness is C01); tick bounds are checked against the exact model with C01's tolerance.",
     "DESIGN.md section 4, C16")
 
 reg("C18",
